@@ -1,6 +1,7 @@
 import ErbiumModel.Lemmas.DhcpWire
 import ErbiumModel.Lemmas.DhcpDecoded
 import ErbiumModel.Lemmas.DhcpOctets
+import ErbiumModel.Lemmas.DhcpDecodedOctets
 import ErbiumModel.Lemmas.Frame
 import ErbiumModel.Lemmas.FrameValid
 import ErbiumModel.Generated.Dhcp
@@ -134,6 +135,13 @@ theorem C12_encoding_is_octets (m : DhcpWire.Dhcp) (hch : DhcpWire.Octets m.chad
     (hfi : DhcpWire.Octets m.file) (hopt : ∀ e ∈ m.options, e.1 < 256 ∧ DhcpWire.Octets e.2) :
     ∀ b ∈ DhcpWire.serialise m, b < 256 :=
   DhcpWire.serialise_octets m hch hsn hfi hopt
+
+/-- (a5) decode → encode writes octets too: for every octet string the decoder accepts, the decoded
+    message consists of octets of the input and its re-encoding is an octet string (so the
+    hypotheses of `C12_encoding_is_octets` hold of every message the server receives). -/
+theorem C12_reencoding_is_octets (pkt : List Nat) (hb : ∀ b ∈ pkt, b < 256) (m : DhcpWire.Dhcp)
+    (h : DhcpWire.parse pkt = .ok m) : ∀ b ∈ DhcpWire.serialise m, b < 256 :=
+  DhcpWire.reencode_octets pkt hb m h
 
 /-! Non-vacuity: concrete instances of the hypotheses. -/
 def exampleMsg : DhcpWire.Dhcp :=
